@@ -53,6 +53,9 @@ def fc_arg(tbl, shuffle=True):
         rr.shuffle(items)
         for _, ent in items:
             rr.shuffle(ent)
+    if shuffle and (seed // 2) % 2 == 0:
+        # an axis without links on a face may simply be left out of that face's entry
+        items = [(f, [(a, pr) for a, pr in ent if any(l is not None for l in pr)]) for f, ent in items]
     return {"face": {f: dict(ent) for f, ent in items}}
 
 
